@@ -663,6 +663,13 @@ func (w *World) prove(g boundsGoal, lib libFacts, depth int) (bool, string) {
 		if !g.upperIncl && w.rangeIndexIntoMake(g.index, g.slice) {
 			return true, "range index over xs into make(…, len(xs))"
 		}
+		// a slice bound one past a position: 0 ≤ r+1 ≤ len(x) follows from 0 ≤ r < len(x), i.e. from r
+		// being an index of x (the tail x[r+1:] behind an element x[r])
+		if _, rIsPhi := r.(*ssa.Phi); rIsPhi && g.upperIncl && c == 1 && depth < 3 {
+			if okP, whyP := w.prove(boundsGoal{fn: fn, site: g.site, slice: g.slice, index: r}, lib, depth+1); okP {
+				return true, "one past an index of the slice: " + whyP
+			}
+		}
 		// φ index: prove every alternative at its own edge
 		if phi, isPhi := g.index.(*ssa.Phi); isPhi && depth < 3 {
 			if okP, whyP := w.provePhiIndex(g, phi, lib, depth); okP {
@@ -1190,9 +1197,15 @@ func (w *World) provePhiIndex(g boundsGoal, phi *ssa.Phi, lib libFacts, depth in
 		return true
 	}
 	ok := rec(phi)
-	// the length must not shrink between the φ and the use: only for stable keys
+	// the length must not shrink between the φ and the use: only for stable keys. A re-assignment of
+	// the slice from which control cannot arrive at the use any more (the compaction that follows the
+	// use in straight-line code) is not in between; one that can (earlier in the block, or around a
+	// loop) is.
 	if ok {
-		if stable, why := w.keyStable(g.fn, w.keyOf(g.slice), nil); !stable {
+		canArrive := func(st ssa.Instruction) bool {
+			return st == g.site || reach(g.fn, st, func(j ssa.Instruction) bool { return j == g.site }, nil, nil) != nil
+		}
+		if stable, why := w.keyStable(g.fn, w.keyOf(g.slice), canArrive); !stable {
 			return false, "φ index alternatives hold but " + why
 		}
 	}
